@@ -203,6 +203,27 @@ def separated(cx: Ctx, w: Write) -> Tuple[str, str]:
             if reg[0] == 'sall':
                 return 'refuted', f'the agent cell is itself one of the sampled {w.cls} cells'
             return 'undecided', 'same sample, indices not understood'
+    # the agent itself is drawn from a list that is not filtered to Floor cells
+    alist = None
+    if ag[0] == 'elem':
+        alist = ag[1]
+    elif ag[0] == 'selem':
+        alist = cx.samples[ag[1]][0]
+    if alist is not None and alist.kind in ('inside', 'all') and w.time < ta:
+        if reg and reg[0] == 'border' and alist.kind == 'inside':
+            return 'proved', '(a) agent drawn from the strict interior'
+        wcell = reg if reg and reg[0] == 'cell' else None
+        if wcell is None and reg and reg[0] == 'elem' and reg[1].kind in ('inside', 'all', 'floor'):
+            return 'refuted', (f'the agent is drawn from `{alist.text[:60]}`, which is not '
+                               f'filtered to Floor cells, after a {w.cls} was placed on a cell of '
+                               f'the same region: they can coincide')
+        if wcell is not None and wcell[1] is not None and wcell[2] is not None and \
+                (alist.kind == 'all' or interior(cx, wcell[1], wcell[2])) and not (
+                    alist.excl_cell is not None and alist.excl_cell[1] == wcell[1]
+                    and alist.excl_cell[2] == wcell[2]):
+            return 'refuted', (f'the agent is drawn from `{alist.text[:60]}`, which is not '
+                               f'filtered to Floor cells and contains the {w.cls} cell '
+                               f'({wcell[1]}, {wcell[2]})')
     # (b) written cells drawn from a list excluding the agent's cell
     lst: Optional[ListInfo] = None
     if reg and reg[0] == 'elem':
@@ -463,15 +484,72 @@ def run(index: RepoIndex, rep) -> None:
               'full border / strict interior', 'Area.positions border and inside')
 
 
+def overwritten(cx: Ctx, e: Write):
+    """later writes that may land on the cell of write `e` (an exit): [(write, verdict, why)]"""
+    out = []
+    if not e.region or e.region[0] != 'cell':
+        return out
+    cell = e.region
+    for w in cx.writes:
+        if w.time <= e.time or w is e:
+            continue
+        reg = w.region
+        lst = None
+        if reg and reg[0] == 'elem':
+            lst = reg[1]
+        elif reg and reg[0] in ('selem', 'sslice', 'sall'):
+            lst = cx.samples[reg[1]][0]
+        if lst is not None:
+            if lst.kind == 'floor' and lst.time > e.time:
+                out.append((w, 'proved', 'drawn from a Floor-filtered list built after the exit'))
+            elif lst.kind == 'line' and lst.region is not None and \
+                    cell_disjoint_region(cx, cell, lst.region):
+                out.append((w, 'proved', 'drawn from a line that misses the exit'))
+            elif lst.kind in ('inside', 'all') and not (
+                    lst.excl_cell is not None and lst.excl_cell[1] == cell[1]
+                    and lst.excl_cell[2] == cell[2]) and interior(cx, cell[1], cell[2]):
+                out.append((w, 'refuted', f'drawn from `{lst.text[:70]}`, which contains the '
+                            f'exit cell ({cell[1]}, {cell[2]})'))
+            else:
+                out.append((w, 'undecided', 'list not understood'))
+            continue
+        why = cell_disjoint_region(cx, cell, reg)
+        if why:
+            out.append((w, 'proved', why))
+            continue
+        wit = witness(cx, cell, reg)
+        if wit is not None and w.cls != 'Exit':
+            out.append((w, 'refuted', f'can be written onto the exit cell: {wit}'))
+        else:
+            out.append((w, 'undecided', 'position not bounded by the analysis'))
+    return out
+
+
 def inventory(index, rep, rule, resets, runs) -> None:
     def writes_of(cx, cls):
         return [w for w in cx.writes if w.cls == cls]
 
+    # the exit placed by `empty` (and by resets built on it) survives the later writes
+    for name in ('empty', 'dynamic_obstacles', 'keydoor', 'crossing', 'teleport'):
+        for cx in runs.get(name, []):
+            path = ','.join(cx.path) or '-'
+            for e in writes_of(cx, 'Exit'):
+                for w, verdict, why in overwritten(cx, e):
+                    site = f'{RESET}:{name}[{path}]:{w.line}'
+                    if verdict == 'proved':
+                        rep.holds(rule, site, f'exit survives `{w.text[:40]}`: {why}')
+                    elif verdict == 'undecided':
+                        rep.undecided(rule, site, f'exit vs `{w.text[:40]}`: {why}')
+                    else:
+                        rep.violation(rule, RESET, name, w.line, w.text,
+                                      f'{name}[{path}]: the {w.cls} {why}: the only exit can be '
+                                      f'overwritten (no exit left: the episode cannot end and '
+                                      f'exit-distance rewards raise)')
+
     for cx in runs['empty']:
         path = ','.join(cx.path)
         ex = writes_of(cx, 'Exit')
-        rep.check(len(ex) == 1 and ex[0].region is not None and
-                  ex[0].region[0] in ('cell', 'elem'), rule, RESET, 'empty',
+        rep.check(len(ex) == 1, rule, RESET, 'empty',
                   ex[0].line if ex else resets['empty'].node.lineno,
                   '; '.join(w.text for w in ex) or 'empty',
                   f'empty[{path}] stores {len(ex)} exits, advertised exactly one',
